@@ -122,8 +122,13 @@ int debug_message (const char *fmt, ...)
     {
       char time_info[1024];
       time_t t = time(NULL);
-      struct tm* now = localtime (&t);
-      strftime (time_info, sizeof(time_info), "%G-%m-%d %T", now);  /* ISO 8601 format */
+      struct tm now;  /* not localtime()'s static buffer: worker threads write debug messages, too */
+#ifdef _WIN32
+      localtime_s (&now, &t);
+#else
+      localtime_r (&t, &now);
+#endif
+      strftime (time_info, sizeof(time_info), "%G-%m-%d %T", &now);  /* ISO 8601 format */
       n_written = log_message(debug_log_file, "%s\t%s\n", time_info, msg);
     }
   else
